@@ -8,7 +8,7 @@
 (*   [t |-> "equiv", a, b, starta, startb, w, obs, envs, budget]                    *)
 (*        two IR graphs (original / transformed) must have the same observable      *)
 (*        behaviour (C36, C37, C40): same write log, same exit, same observed regs  *)
-(*   [t |-> "typeok", blocks]   lifted blocks are well formed (C14)                 *)
+(*   [t |-> "lifted", blocks, regs, edges, irdst]   lifted blocks are well formed (C14) *)
 EXTENDS IRMachine, Json, IOUtils, FiniteSets
 VARIABLES lo, hi
 Items == JsonDeserialize(IOEnv.ITEMS_FILE)
@@ -77,15 +77,47 @@ FirstBadEquiv(it, k) ==
        IF v \in {"ok", "undef", "budget"} THEN FirstBadEquiv(it, k + 1)
        ELSE IF v = "unk" THEN "unk" ELSE "bad:" \o ToString(k) \o ":" \o v
 
-(* ---- C14 ---- *)
+(* ---- C14: well-formedness of lifted blocks and of the graph built from them ---- *)
+(*   [t |-> "lifted", blocks, regs (names the architecture declares), edges <<[s, d]>>, irdst]            *)
+RECURSIVE IdsOf(_)
+IdsOf(e) ==
+  CASE e.k = "id" -> {e.n}
+    [] e.k = "int" -> {}
+    [] e.k = "mem" -> IdsOf(e.p)
+    [] e.k = "slice" -> IdsOf(e.a)
+    [] e.k = "cond" -> IdsOf(e.c) \cup IdsOf(e.t) \cup IdsOf(e.f)
+    [] e.k \in {"op", "compose"} -> UNION {IdsOf(e.a[i]) : i \in 1..Len(e.a)}
+IsLocName(n) == Len(n) > 4 /\ SubSeq(n, 1, 4) = "loc_"
+(* locations the destination can take: leaves of the conditional tree *)
+RECURSIVE DstLocs(_)
+DstLocs(e) == CASE e.k = "cond" -> DstLocs(e.t) \cup DstLocs(e.f)
+                [] e.k = "id" -> IF IsLocName(e.n) THEN {e.n} ELSE {}
+                [] OTHER -> {}
+Assigns(b) == UNION {{b.abs[a][i] : i \in 1..Len(b.abs[a])} : a \in 1..Len(b.abs)}
+DstAssigns(b, irdst) == {<<a, i>> \in UNION {{<<a, i>> : i \in 1..Len(b.abs[a])} : a \in 1..Len(b.abs)} :
+                           b.abs[a][i].d.k = "id" /\ b.abs[a][i].d.n = irdst}
+BlockVerdict(b, it) ==
+  IF \E x \in Assigns(b) : ~DstOK(x.d) THEN "destination-not-register-or-memory"
+  ELSE IF \E x \in Assigns(b) : x.d.w # x.s.w THEN "width-mismatch"
+  ELSE IF Cardinality(DstAssigns(b, it.irdst)) # 1 THEN "irdst-set-" \o ToString(Cardinality(DstAssigns(b, it.irdst))) \o "-times"
+  ELSE IF \E x \in Assigns(b) : \E n \in IdsOf(x.s) \cup IdsOf(x.d) :
+              ~IsLocName(n) /\ n # it.irdst /\ \A r \in 1..Len(it.regs) : it.regs[r] # n
+       THEN "unknown-register:" \o (CHOOSE n \in UNION {IdsOf(x.s) \cup IdsOf(x.d) : x \in Assigns(b)} :
+                                      ~IsLocName(n) /\ n # it.irdst /\ \A r \in 1..Len(it.regs) : it.regs[r] # n)
+  ELSE LET p == CHOOSE q \in DstAssigns(b, it.irdst) : TRUE
+           locs == DstLocs(b.abs[p[1]][p[2]].s) IN
+       IF \E l \in locs : ~\E k \in 1..Len(it.edges) : it.edges[k].s = b.loc /\ it.edges[k].d = l
+       THEN "missing-edge-to:" \o (CHOOSE l \in locs : ~\E k \in 1..Len(it.edges) : it.edges[k].s = b.loc /\ it.edges[k].d = l)
+       ELSE "ok"
 TypeCheck(it) ==
-  IF \E b \in 1..Len(it.blocks) : \E a \in 1..Len(it.blocks[b].abs) : ~ABTypeOK(it.blocks[b].abs[a])
-  THEN "illformed:" \o it.blocks[CHOOSE b \in 1..Len(it.blocks) : \E a \in 1..Len(it.blocks[b].abs) : ~ABTypeOK(it.blocks[b].abs[a])].loc
+  IF \E b \in 1..Len(it.blocks) : BlockVerdict(it.blocks[b], it) # "ok"
+  THEN LET b == CHOOSE c \in 1..Len(it.blocks) : BlockVerdict(it.blocks[c], it) # "ok" IN
+       "bad:" \o it.blocks[b].loc \o ":" \o BlockVerdict(it.blocks[b], it)
   ELSE "ok"
 
 Verdict(it) ==
   CASE it.t = "symb" -> FirstBadSymb(it, 1)
     [] it.t = "equiv" -> FirstBadEquiv(it, 1)
-    [] it.t = "typeok" -> TypeCheck(it)
+    [] it.t = "lifted" -> TypeCheck(it)
 Report == lo < hi \/ PrintT("V " \o ToString(cur) \o " " \o Verdict(Items[cur]))
 =============================================================================
